@@ -65,7 +65,11 @@ def check(world, tier):
                     a.ob(False, "via " + f_.key, f_.msg, f_.site)
                 a.ob(not cl.findings, "shared-clause %s" % cl.id, "", sample={cl.id: "%d/%d" % (cl.discharged, cl.obligations)})
     # ---------------------------------------------------------------- b
-    fi_c = {f["name"]: i for i, f in enumerate(prog.adts[CLIENT]["variants"][0]["fields"])}
+    fi_c = {k: tuple(v) for k, v in world.client_layout().items()}
+    for need_ in ("blocksize", "windowsize", "receive_directory", "file_path"):
+        if need_ not in fi_c:
+            b.fail("anchor-lost Client.%s" % need_, "Client::new does not copy ClientConfig.%s into the Client" % need_)
+            return rep
     self_root = ("P", ("L", eng.entry_frame, 1), ())
     news = [e for e in ev if e.inlined and base_name(e).endswith("worker::Worker::new")]
     b.need(len(set(e.node for e in news)), 2, "Worker::new call sites in the client")
@@ -81,9 +85,9 @@ def check(world, tier):
                 continue
             s_ = single_sym(v[1])
             nm = eng.sym_names[s_] if s_ is not None else None
-            if isinstance(nm, tuple) and nm[0] == "phi" and nm[3] == self_root and tuple(nm[4]) == (fi_c[fld],):
+            if isinstance(nm, tuple) and nm[0] == "phi" and nm[3] == self_root and tuple(nm[4]) == fi_c[fld]:
                 forms[what].add("adopted")       # value written by the loop over the OACK's options
-            elif isinstance(nm, tuple) and nm[0] == "init" and nm[1] == self_root and tuple(nm[2]) == (fi_c[fld],):
+            elif isinstance(nm, tuple) and nm[0] == "init" and nm[1] == self_root and tuple(nm[2]) == fi_c[fld]:
                 forms[what].add("configured")    # the value the client asked for, never overwritten
             else:
                 # truncation of an adopted value (windowsize: usize -> u16)
@@ -96,7 +100,7 @@ def check(world, tier):
         b.ob(not (forms[what] - {"adopted", "const %d" % dflt}), "worker-%s-from-config" % what,
              "a Worker is built with a %s that is neither the OACK's value nor the RFC default (forms: %s)" % (what, sorted(forms[what])))
     # the values are adopted from the options of the received OACK: writes to the client's fields inside the loop over them
-    adopt = [(node, path, v) for (node, root, path, old, v, cx) in eng.mem_writes if root == self_root and tuple(path) in ((fi_c["blocksize"],), (fi_c["windowsize"],))]
+    adopt = [(node, path, v) for (node, root, path, old, v, cx) in eng.mem_writes if root == self_root and tuple(path) in (fi_c["blocksize"], fi_c["windowsize"])]
     b.need(len(adopt), 2, "assignments adopting OACK values")
     for (node, path, v) in adopt:
         if v[0] == "i" and not v[1][1]:
@@ -152,12 +156,12 @@ def check(world, tier):
             j = find_terms(p_, is_app("std::path::Path::join"))[0]
             a0, a1 = j[3][0], j[3][1]
             ok = term_contains(a1, is_app("std::path::Path::file_name")) and \
-                (term_contains(a0, lambda t: isinstance(t, tuple) and t and t[0] == "init" and t[1] == self_root and tuple(t[2]) == (fi_c["receive_directory"],)) or
+                (term_contains(a0, lambda t: isinstance(t, tuple) and t and t[0] == "init" and t[1] == self_root and tuple(t[2]) == fi_c["receive_directory"]) or
                  (isinstance(a0, tuple) and a0[0] in ("r", "ref")))
             d.ob(ok, "download-target", "the download is not stored as <receive-directory>/<file name of the requested path>", e.loc,
                  sample={"download target": "join(receive_directory, file_name(file_path))"})
         else:
-            ok = isinstance(p_, tuple) and p_[0] == "t" and isinstance(p_[1], tuple) and p_[1][0] == "init" and p_[1][1] == self_root and tuple(p_[1][2]) == (fi_c["file_path"],)
+            ok = isinstance(p_, tuple) and p_[0] == "t" and isinstance(p_[1], tuple) and p_[1][0] == "init" and p_[1][1] == self_root and tuple(p_[1][2]) == fi_c["file_path"]
             d.ob(ok, "upload-source", "the upload does not read the configured file path", e.loc, sample={"upload source": "file_path"})
     forms_seen = set("join" if term_contains(e.args[1], is_app("std::path::Path::join")) else "plain" for e in news if len(e.args) > 1)
     d.ob(forms_seen == {"join", "plain"}, "both-target-forms", "download/upload target forms found: %s" % sorted(forms_seen), nontrivial=False)
